@@ -143,7 +143,7 @@ func replayC06(c *Ctx, rule string, raw json.RawMessage) {
 }
 
 func runC06(c *Ctx, phase string) {
-	n := c.Pick(40000, 300000)
+	n := c.Pick(40000, 1000000)
 	c.Meta("random expression trees as in C01 (k<=7 distinct terms of every kind incl. LicenseRef/DocumentRef under OR, repeated and re-spelled leaves such as mit/MIT, 6 shape classes, redundant parentheses and spaces) "+
 		"plus every listed license id in every valid spelling as a single term; for each tree: result has no duplicates, equals the set of canonical leaf strings, every element is valid and extracts to itself, "+
 		"and the result used as allowed list satisfies the expression. distinct = expression text; non-trivial = at least one operator",
